@@ -1,6 +1,8 @@
 //! C11: may::sync::Barrier in thread context (det mode)
 //!
-//! `n` threads, a `Barrier::new(n)`, `g` rounds each. Oracles (independent of the model): exactly one leader per
+//! `n` threads, ONE `Barrier::new(n)` re-used for `g` rounds (1-4, thorough 1-5) by each thread back to back. The trace
+//! contains the hooked accesses to the barrier's lock-protected state (`sync.barrier.count`, `sync.barrier.generation_id`,
+//! filter `sync/barrier.rs`) next to the mutex / condvar / blocker events. Oracles (independent of the model): exactly one leader per
 //! round; when a thread comes out of round `r` all `n` threads have arrived in round `r` (arrival counter sampled
 //! after the return); nobody is left behind (deadlock detector); the barrier is reused for every round.
 use super::Built;
@@ -11,7 +13,23 @@ use std::sync::Arc;
 
 pub fn build(rng: &mut Rng, tier: u32) -> Built {
     let n = 1 + rng.below(if tier > 0 { 5 } else { 4 }) as usize;
-    let rounds = 1 + rng.below(if tier > 0 { 4 } else { 3 }) as usize;
+    // one barrier is re-used for every round: 3 and more generations are common, the scheduler lets the leader race ahead
+    let rounds = 1 + rng.below(if tier > 0 { 5 } else { 4 }) as usize;
+    build_with(n, rounds, "barrier")
+}
+
+/// family `barrier_small`: 2 parties x 2-4 generations (two thirds) or 3 parties x 2 generations, small enough for the
+/// systematic exploration (`detx`: every schedule with at most 2 preemptions – the leader racing ahead into the next
+/// generation needs none)
+pub fn build_small(rng: &mut Rng, _tier: u32) -> Built {
+    if rng.below(3) < 2 {
+        build_with(2, 2 + rng.below(3) as usize, "barrier_small")
+    } else {
+        build_with(3, 2, "barrier_small")
+    }
+}
+
+fn build_with(n: usize, rounds: usize, family: &str) -> Built {
     let bar = Arc::new(Barrier::new(n));
     let arrived: Arc<Vec<AtomicUsize>> = Arc::new((0..rounds).map(|_| AtomicUsize::new(0)).collect());
     let leaders: Arc<Vec<AtomicUsize>> = Arc::new((0..rounds).map(|_| AtomicUsize::new(0)).collect());
@@ -40,7 +58,7 @@ pub fn build(rng: &mut Rng, tier: u32) -> Built {
         }));
     }
     Built {
-        header: format!("family=barrier actors={} parties={} rounds={}", n, n, rounds),
+        header: format!("family={} actors={} parties={} rounds={}", family, n, n, rounds),
         names,
         actors,
         check: Box::new(move |r| {
@@ -61,7 +79,7 @@ pub fn build(rng: &mut Rng, tier: u32) -> Built {
             }
             v
         }),
-        filter: vec!["sync/condvar.rs", "sync/mutex.rs", "sync/blocking.rs"],
+        filter: vec!["sync/condvar.rs", "sync/mutex.rs", "sync/blocking.rs", "sync/barrier.rs"],
         timeout_permille: 0,
     }
 }
